@@ -308,6 +308,9 @@ class Verdict:
         self.known_lines = []
         self.n = 0
         os.makedirs(REPLAYS, exist_ok=True)
+        import glob
+        for old in glob.glob(os.path.join(REPLAYS, "%s-%d-*.json" % (pid, seed))):
+            os.remove(old)
 
     def violation(self, kind, payload, no_input=False):
         self.n += 1
